@@ -36,6 +36,7 @@ import (
 	"verif/harness/internal/pipelinex"
 	"verif/harness/internal/pipex"
 	"verif/harness/internal/res"
+	"verif/harness/internal/zipx"
 )
 
 var formatOf = map[string][]string{
@@ -303,6 +304,12 @@ func Run(args []string) {
 		f.Close()
 		os.Remove(in)
 	}
+	// a ZIP64 archive (saturated 32-bit sizes + ZIP64 extra records) from the harness ZIP writer, presented as a jar
+	z64, _ := zipx.Write([]zipx.Member{
+		{ID: 1, Shape: zipx.Shape{Method: "store", Size: "small", Desc: "none", Zip64Extra: true}},
+		{ID: 2, Shape: zipx.Shape{Method: "deflate", Size: "small", Desc: "none", Zip64Extra: true}},
+		{ID: 3, Shape: zipx.Shape{Method: "store", Size: "small", Desc: "none"}}}, zipx.Tail{})
+	bases = append(bases, base{"jar", false, z64, ".jar"})
 	// cases
 	var cases []*caseT
 	n := 0
@@ -370,6 +377,26 @@ func Run(args []string) {
 			}
 		}
 	}
+	// nested compressed streams: garble the inside of a member whose decoder runs in a helper goroutine or behind a pipe
+	for bi, b := range bases {
+		for _, st := range StreamsOf(b.typ, b.data) {
+			for _, how := range []string{"garble-early", "garble-mid", "suffix"} {
+				d := append([]byte(nil), b.data...)
+				if !st.Apply(d, how) {
+					continue
+				}
+				for _, entry := range tb.Entries {
+					n++
+					if (n+seedv)%every != 0 {
+						continue
+					}
+					p := filepath.Join(dir, fmt.Sprintf("s%d-%d%s", bi, n, b.ext))
+					os.WriteFile(p, d, 0600)
+					cases = append(cases, &caseT{Type: b.typ, Signed: b.signed, Format: "stream", Field: st.Name, Class: how, Entry: entry, path: p})
+				}
+			}
+		}
+	}
 	// run
 	jobs := make(chan *caseT)
 	var wg sync.WaitGroup
@@ -378,7 +405,7 @@ func Run(args []string) {
 		go func() {
 			defer wg.Done()
 			for c := range jobs {
-				cmd := exec.Command("bash", "-c", "ulimit -v 8388608; exec \"$0\" \"$@\"", self, "malformed-child", c.Entry, c.Type, c.path, dir)
+				cmd := exec.Command("bash", "-c", "ulimit -v 2621440; exec \"$0\" \"$@\"", self, "malformed-child", c.Entry, c.Type, c.path, dir)
 				var so, se bytes.Buffer
 				cmd.Stdout, cmd.Stderr = &so, &se
 				cmd.Env = append(os.Environ(), "GOMAXPROCS=2", "GOTRACEBACK=all")
